@@ -18,6 +18,8 @@ def metachar_cases():
     for i in range(0, len(good), 3):
         rs = [gen_lex.named("M%d" % (i + k), p, "push" if k == 1 else "", "S1" if k == 1 else "") for k, p in enumerate(good[i:i + 3])]
         out.append({"id": "M%d" % i, "rules": {"Root": rs + [gen_lex.inc("S1")], "S1": [gen_lex.named("Q", "'[^']*'", "pop"), gen_lex.rule("a"), dict(gen_lex.RET)]}})
+    # an anonymous (empty name) matching rule: accepted by lexer.New, must survive the round trip
+    out.append({"id": "MA", "rules": {"Root": [gen_lex.named("", "[ \\t]+"), gen_lex.rule("a"), gen_lex.rule("b", act="push", state="S1")], "S1": [gen_lex.rule("c"), gen_lex.rule("b", act="pop")]}})
     # state names that need JSON escaping (control character, quote, backslash, non-ASCII)
     weird = 'S\x01"\\\u00e9'
     out.append({"id": "MW", "rules": {"Root": [gen_lex.rule("a", act="push", state=weird), gen_lex.inc(weird)],
